@@ -7,6 +7,7 @@ CONSTANTS
   ChunkPts = {1, 2, 3}
   ResetChoices <- RepairedOnly
   TamperTags <- AllTags
+  CacheChoices = {"none"}
   Concurrent = TRUE
   RecordHist = FALSE
 INVARIANTS Agreement SuccessSound MutualGating ReplayRejected FaultNeverSuccess
